@@ -146,6 +146,36 @@ def fiber_availability(f, d=None):
     return probs
 
 
+def nesting_problems(f):
+    """loop openings and closings are properly nested in loop order with the update innermost: over the hoisted sequence the
+    `LoopNode(r)` / `EndLoopNode(r)` statements form matching brackets (a stack), the body sits inside all of them, and the loops are
+    opened in the order in which the exported loop list gives them"""
+    import re
+    stack, opened, probs = [], [], []
+    body_depth = None
+    for i in f["sorted1"]:
+        n = f["nodes"][i]
+        m = re.fullmatch(r"\(LoopNode, (\w+)\)", n)
+        if m:
+            stack.append(m.group(1)); opened.append(m.group(1)); continue
+        m = re.fullmatch(r"\(EndLoopNode, (\w+)\)", n)
+        if m:
+            if not stack or stack[-1] != m.group(1):
+                probs.append("loop %s is closed while %s is the innermost open loop" % (m.group(1), stack[-1] if stack else "none"))
+                if m.group(1) in stack:
+                    stack.remove(m.group(1))
+            else:
+                stack.pop()
+            continue
+        if n == "(OtherNode, Body)":
+            body_depth = len(stack)
+    if stack:
+        probs.append("loops %r are never closed" % stack)
+    if body_depth is not None and body_depth != len(opened):
+        probs.append("the update sits inside %d of the %d loops" % (body_depth, len(opened)))
+    return probs
+
+
 def run(ctx):
     ctx.rule = ("flow graphs of corpus + generated G1-G5 (plain) and G7/corpus (metrics) specifications, exported before/after hoisting through the public IR; "
                 "plus random DAGs with a loop chain and a random topological order driven through the real __hoist; non-trivial = at least one loop and one hoistable node; distinct = distinct (edges, order)")
@@ -191,6 +221,9 @@ def run(ctx):
         if any("FromFiberNode" in n for n in f["nodes"]):
             ctx.ob(not probs2); ctx.stat("fiber_availability_checked")
         probs = probs + probs2
+        probs3 = nesting_problems(f)
+        ctx.ob(not probs3); ctx.stat("nesting_checked")
+        probs = probs + probs3
         if probs:
             pos = {n: i for i, n in enumerate(f["sorted1"])}
             ctx.violation(dict(kind="missing-dependence", origin=dict(origin=origin, yaml=r["yaml"], mode=r["mode"]), flow=f, reason="; ".join(probs[:3]),
@@ -217,7 +250,7 @@ def replay(ctx, path):
     if rep.get("kind") == "missing-dependence":
         o = rep["origin"]
         for f in flow.flow_info(o["yaml"], o["mode"]):
-            probs = rank_availability(f, o["yaml"]) + fiber_availability(f, o["yaml"])
+            probs = rank_availability(f, o["yaml"]) + fiber_availability(f, o["yaml"]) + nesting_problems(f)
             ctx.ob(not probs)
             if probs:
                 ctx.violation(dict(kind="missing-dependence", origin=o, flow=f, reason="; ".join(probs[:3]), obligation=rep.get("obligation")), True)
